@@ -278,9 +278,31 @@ fn main() {
         report.finish();
     }
 
-    if let Err(e) = inotify_probe(&base) {
-        vcore::inconclusive(&format!("inotify watcher not usable on {}: {e}", base.display()));
-    }
+    // inotify must deliver events on the scratch file system (tmpfs normally); otherwise fall back to
+    // a directory next to the build output (never /tmp); if that fails too the check is inconclusive
+    let mut fallback: Option<PathBuf> = None;
+    let base = match inotify_probe(&base) {
+        Ok(()) => base,
+        Err(first) => {
+            let alt = vcore::verif_root().join("harness/target/scratch").join(format!("verif-scratch-watch-{}", std::process::id()));
+            let _ = std::fs::create_dir_all(&alt);
+            match inotify_probe(&alt) {
+                Ok(()) => {
+                    report.label("scratch:fallback-under-harness-target");
+                    fallback = Some(alt.clone());
+                    alt
+                }
+                Err(second) => {
+                    let _ = std::fs::remove_dir_all(&alt);
+                    vcore::inconclusive(&format!(
+                        "inotify watcher not usable: on {}: {first}; on {}: {second}",
+                        base.display(),
+                        alt.display()
+                    ));
+                }
+            }
+        }
+    };
 
     // checked-in inputs first: regress-* must hold, known-* must fail with their listed signature
     report.run_regressions(|input| {
@@ -374,5 +396,8 @@ fn main() {
     }
     drop(t);
     drop(inc);
+    if let Some(f) = fallback {
+        let _ = std::fs::remove_dir_all(f);
+    }
     report.finish();
 }
